@@ -451,7 +451,7 @@ class QueryGen:
 
     def called_lambda(self, t, env, d):
         r = self.r
-        n = r.randrange(1, 3)
+        n = r.choice([0, 1, 1, 1, 2, 2])      # zero-parameter lambdas too: (lambda: body)()
         ps, tys = [], []
         e2 = list(env)
         for _ in range(n):
@@ -465,7 +465,7 @@ class QueryGen:
             e2.append((p, ty))
         body = self.expr(t, e2, d - 1)
         args = [self.expr(ty, env, d - 1) for ty in tys]
-        if self.kw_calls and r.random() < 0.4:
+        if self.kw_calls and n > 0 and r.random() < 0.4:
             # bind some (suffix of the) parameters by keyword, in shuffled order
             k = r.randrange(0, n)
             kws = list(zip(ps[k:], args[k:]))
